@@ -89,23 +89,22 @@ def expectedHandleSkeleton : List (String × List String) := [
 
 /-- C17: the channel / goroutine skeleton of seqls' work manager -/
 def expectedSeqlsSkeleton : List (String × List String) := [
+  ("NewWorkManager", ["makechan:chan string:unbuffered", "makechan:chan *fileseq.FileSequence:unbuffered", "makechan:chan fileseq.FileSequences:unbuffered", "return"]),
   ("main", []),
-  ("workManager.Process", ["call:wg.Add", "go:func() { numErrs := w.processSources() atomic.AddUint64(&errCount, numErrs) wg.Done() }", "call:atomic.AddUint64", "call:wg.Done", "go:func() { var numErrs uint64 if Options.Recurse { numErrs = w.loadRecursive(rootPaths) } else { numErrs = w.load(rootPaths) } atomic.AddUint64(&errCount, numErrs) w.closeInputs() }", "call:atomic.AddUint64", "go:func() { wg.Wait() w.closeOutput() }", "call:wg.Wait"]),
+  ("workManager.Process", ["return", "for:i < numWorkers", "call:wg.Add", "go:func() { numErrs := w.processSources() atomic.AddUint64(&errCount, numErrs) wg.Done() }", "call:atomic.AddUint64", "call:wg.Done", "go:func() { var numErrs uint64 if Options.Recurse { numErrs = w.loadRecursive(rootPaths) } else { numErrs = w.load(rootPaths) } atomic.AddUint64(&errCount, numErrs) w.closeInputs() }", "call:atomic.AddUint64", "go:func() { wg.Wait() w.closeOutput() }", "call:wg.Wait", "return", "return"]),
   ("workManager.closeInputs", ["close:w.inDirs", "close:w.inSeqs"]),
   ("workManager.closeOutput", ["close:w.outSeqs"]),
-  ("workManager.isInputDone", []),
-  ("workManager.load", ["range:seqs", "send:w.inSeqs", "range:dirs", "send:w.inDirs"]),
-  ("workManager.loadRecursive", ["call:mu.RLock", "call:mu.RUnlock", "call:mu.Lock", "call:mu.Unlock", "send:w.inDirs", "range:seqs", "send:w.inSeqs", "range:dirs", "call:atomic.AddUint64"]),
+  ("workManager.isInputDone", ["return", "return", "return"]),
+  ("workManager.load", ["range:seqs", "send:w.inSeqs", "range:dirs", "send:w.inDirs", "return"]),
+  ("workManager.loadRecursive", ["return", "call:mu.RLock", "call:mu.RUnlock", "call:mu.Lock", "call:mu.Unlock", "return", "return", "send:w.inDirs", "return", "range:seqs", "send:w.inSeqs", "range:dirs", "call:atomic.AddUint64", "return"]),
   ("workManager.processResults", ["range:w.outSeqs", "range:seqs"]),
-  ("workManager.processSources", ["select", "recv:inDirs", "send:outSeqs", "recv:inSeqs", "send:outSeqs"])
+  ("workManager.processSources", ["return", "for:!isDone()", "select", "recv:inDirs", "nil:inDirs", "continue", "continue", "send:outSeqs", "recv:inSeqs", "nil:inSeqs", "continue", "continue", "continue", "send:outSeqs", "return"])
 ]
 
 /-- C18: one goroutine per pattern, a channel, n receives -/
 def expectedSeqinfoSkeleton : List (String × List String) := [
-  ("main", ["range:patterns", "go:func(pat string) { out <- parse(pat, &Options) }", "send:out", "recv:out"]),
-  ("parse", []),
-  ("printJsonResults", []),
-  ("printPlainResults", ["range:results"])
+  ("main", ["for:scanner.Scan()", "continue", "makechan:chan *Result:buffer=n", "range:patterns", "go:func(pat string) { out <- parse(pat, &Options) }", "send:out", "for:i < n", "recv:out"]),
+  ("parse", ["return", "return", "return", "return", "return", "return", "return", "return"])
 ]
 
 end Gfs
